@@ -196,6 +196,16 @@ def task_cands(a, env):
 TAGS = [b"", b"T", b"a" * 255]
 
 
+def _takes(f, n):
+    """the (private) core call still takes n positional arguments, the last one being the tag"""
+    import inspect
+    try:
+        ps = [q for q in inspect.signature(f).parameters.values() if q.kind in (q.POSITIONAL_ONLY, q.POSITIONAL_OR_KEYWORD)]
+    except (TypeError, ValueError):
+        return False
+    return len(ps) == n and ps[-1].name.upper() == "DST"
+
+
 def tag_case(suite, ti, sk, which):
     """a subclass of the stock suite whose domain tag (which="DST") or possession-proof tag
     (which="POP_TAG") is TAGS[ti]: its signatures are the model's for that tag and for no other"""
@@ -215,7 +225,7 @@ def tag_case(suite, ti, sk, which):
         out.append(("Verify(stock-tag signature) by the custom suite", False, BL.verdict(C.Verify, pk, msg, stock)))
         out.append(("Verify(custom-tag signature) by the stock suite", False, BL.verdict(base.Verify, pk, msg, want)))
         core_s, core_v = getattr(base, "_CoreSign", None), getattr(base, "_CoreVerify", None)
-        if core_s is not None and core_v is not None:
+        if core_s is not None and core_v is not None and _takes(core_s, 3) and _takes(core_v, 4):
             # the tag passed explicitly to the core calls of the stock suite
             out.append(("_CoreSign(tag)", ("ok", want), BL.call(core_s, sk, hm, tag)))
             out.append(("_CoreVerify(own tag)", True, BL.verdict(core_v, pk, hm, want, tag)))
